@@ -243,7 +243,11 @@ def classify(pid, badrecs, derive=None):
     for path, rec in badrecs:
         d = derive(rec) if derive else None
         hit = None
+        # a finding describes WHAT goes wrong for an input class; a record of that class in which the real code died, ran out of
+        # time, or broke another clause of the contract than the one the finding is about is not that finding
+        other = any(k in rec for k in ('crash', 'timeout', 'died')) or bool(rec.get('other_clause'))
         for f in fs:
+            if other and not f.get('covers_any_failure'): continue
             if finding_matches(f, rec, d):
                 hit = f
                 break
